@@ -1,5 +1,5 @@
 ---- MODULE MCPratt ----
-EXTENDS Pratt, Grammar, Json
+EXTENDS Pratt, Render, Json
 T(k, s) == <<k, s>>
 OpsAlpha == {T("num","n"), T("ref","x"), T("op","-"), T("op","*"), T("op","="), T("op","=="), T("op","not"), T("op","in"),
              T("op","!"), T("op","++"), T("op","?"), T("op",":"), T("delim","("), T("delim",")")}
@@ -8,6 +8,7 @@ DelAlpha == {T("num","n"), T("fun","f"), T("delim","("), T("delim",")"), T("deli
 CallAlpha == {T("num","n"), T("fun","f"), T("delim","("), T("delim",")"), T("delim","]"), T("comma",","), T("semi",";")}
 ListAlpha == {T("num","n"), T("delim","["), T("delim","]"), T("delim","("), T("delim",")"), T("comma",","), T("op",":")}
 MapAlpha == {T("num","n"), T("delim","{"), T("delim","}"), T("comma",","), T("op",":"), T("op","?"), T("semi",";")}
+NestAlpha == {T("num","n"), T("delim","("), T("delim",")"), T("op","-"), T("op","="), T("op","?"), T("op",":"), T("delim","["), T("delim","]")}
 TernAlpha == {T("ref","x"), T("op","?"), T("op",":"), T("op","="), T("op","+"), T("op","not"), T("op","in"), T("delim","("), T("delim",")")}
 
 \* ---- sentence families (fixed sources, numbered; one behaviour per source) -------------------------
@@ -81,10 +82,24 @@ Toks == SelectSeq(consumed \o la, LAMBDA x : x # EOFTOK)
 AtEnd == pc[1] = "Fin"
 \* C02 / C05 / C08: the machine's outcome conforms to the reference grammar's verdict on the same tokens
 PrattAgreesWithGrammar == AtEnd => Conforms(Verdict(Toks, Table), ~err, result)
+\* C12 / C11 on the specification: every tree the machine returns renders to a token string that the reference grammar
+\* parses back to the same tree (with and without redundant parentheses around every sub-expression)
+Specified == Verdict(Toks, Table)[1] # "Unspecified"
+RenderRoundTrip == (AtEnd /\ ~err /\ Specified) => RoundTrips(result, Table)
+ParensRedundant == (AtEnd /\ ~err /\ Specified) => (ParensFree(result, Table, 1) /\ ParensFree(result, Table, 2))
+\* leg R of C12/C11: the rendered and the wrapped token strings of every accepted tree, as replayable records
+EmitRender(i, toks, ok, ast) ==
+  (ok /\ Verdict(toks, Table)[1] # "Unspecified") =>
+     /\ PrintT(ToJson([toks |-> Render(ast, Table), ok |-> TRUE, ast |-> ast, v |-> "MustAccept", src |-> "render"]))
+     /\ PrintT(ToJson([toks |-> Wrap(ast, Table, 1), ok |-> TRUE, ast |-> ast, v |-> "MustAccept", src |-> "wrap1"]))
 \* C01: termination as safety, bounded recursion
 StepBudget == steps <= 3 * (Len(consumed) + Len(la)) + 3
 DepthBounded == /\ Len(stack[1]) <= 4 * (maxdepth + 1) + 4
                 /\ maxdepth <= MaxDepth + 1
                 /\ (AtEnd /\ ~err) => depth = 0
+\* the nesting budget refuses nothing that is shallow: with MaxDepth = 3 an input is only refused for depth when its
+\* reference tree really nests deeper than that (checked as: every entry consumes a token except the last, so refused-as-too-deep inputs have at least MaxDepth tokens)
+BudgetOnlyWhenDeep == (AtEnd /\ err /\ maxdepth > MaxDepth) => Len(Toks) >= MaxDepth
 Terminates == <>(pc[1] = "End")
+FairSpec == Spec /\ WF_vars(Next)
 ====
